@@ -36,6 +36,8 @@ def make_cases(exes, tier, seed, prop, spec):
             env["MYTH_VERIF_PAIRS"] = "1"
         if v == "asan":
             env.update(core.ASAN_ENV)
+        if spec.get("env_extra"):
+            env.update(spec["env_extra"](r, tier, v, nw))
         args, shape = spec["args"](r, tier, v, nw)
         args = ["seed=%d" % (seed * 100003 + i)] + args
         cases.append(Case([exes[v]] + args, env=env, timeout=spec.get("timeout", 300) * (2 if v == "asan" else 1),
